@@ -45,13 +45,13 @@ GROUPS = {
         subst=dict(Bundles="B_Small", InitOps="Init_ListenRc"),
         mc_quick=C(NSys=3, NOnce=1, OpNames={"bc", "reg", "revoke", "once", "despsys"}, Modes={"cleanup", "revokable"}, MaxOps=2, Budget=4, MaxSteps=3,
                    StepKinds={"ops", "gc"}),
-        mc_thorough=C(NSys=3, NOnce=1, OpNames={"bc", "eev", "reg", "revoke", "once", "despsys", "desp"}, Modes=ALLMODES, MaxOps=2, Budget=4,
+        mc_thorough=C(NSys=3, NOnce=1, OpNames={"bc", "eev", "reg", "on", "revoke", "once", "despsys", "desp"}, Modes=ALLMODES, MaxOps=2, Budget=4,
                       MaxSteps=3, StepKinds={"ops", "gc"}),
-        gen=C(NSys=3, NOnce=1, NEnt=2, OpNames={"bc", "eev", "res", "reg", "revoke", "once", "despsys", "desp", "run", "sysev"}, Modes=ALLMODES,
+        gen=C(NSys=3, NOnce=2, NEnt=2, OpNames={"bc", "eev", "res", "reg", "on", "revoke", "once", "despsys", "desp", "run", "sysev"}, Modes=ALLMODES,
               MaxOps=3, Budget=9, MaxSteps=4, StepKinds={"ops", "gc"}, Features={"err"}),
         gen_subst=dict(Bundles="B_Event", InitOps="Init_ListenRc"),
-        rnd=dict(cfg=dict(kinds=["plain", "plain", "plain"], nonce=1, nent=2),
-                 alphabet=["bc", "eev", "res", "reg", "revoke", "once", "despsys", "desp", "run", "sysev", "probe"],
+        rnd=dict(cfg=dict(kinds=["plain", "plain", "plain"], nonce=2, nent=2),
+                 alphabet=["bc", "eev", "res", "reg", "on", "revoke", "once", "despsys", "desp", "run", "sysev", "probe"],
                  trigs=["bc", "eev", "anyev", "res", "desp"], max_ops=3, budget=12, steps=4, ntypes=2, p_gcpoll=20, p_frame=20,
                  init=[["reg", "persistent", 1, [["bc", 1], ["eev", 1, 1]], 0], ["reg", "cleanup", 2, [["bc", 1], ["res", 1]], 0],
                        ["reg", "revokable", 3, [["anyev", 1], ["bc", 2]], 1]]),
@@ -181,7 +181,7 @@ ENUMS = {
                   consts=C(NSys=2, NOnce=1, NEnt=1, OpNames={"reg", "revoke", "once", "bc", "eev", "desp"}, Modes={"cleanup", "revokable"},
                            MaxOps=3, BodyOps=0, Budget=3, MaxSteps=2, FinalStep="clear")),
     "tabmix": dict(subst=dict(Bundles="B_Mixed", InitOps="Init_Ins"),
-                   consts=C(NSys=2, NOnce=1, NEnt=1, OpNames={"reg", "revoke", "once", "desp", "rm", "res", "despsys"}, Modes={"cleanup", "revokable"},
+                   consts=C(NSys=2, NOnce=1, NEnt=1, OpNames={"reg", "on", "revoke", "once", "desp", "rm", "res", "despsys"}, Modes={"cleanup", "revokable"},
                             MaxOps=3, BodyOps=0, Budget=3, MaxSteps=3, FinalStep="clear")),
 }
 # removal / despawn polling after table edits: entity-scoped removal and despawn registrations are in place (init step), the
